@@ -4,6 +4,7 @@
 //   KEY  code ident serde-name is_action_key is_modifier     (every KeyCode)
 //   CHAR scalar needs-shift key-code                          (CHAR_ACCESS_MAP, sorted)
 //   ROW  name code...                                         (US_KEYBOARD_LAYOUT)
+//   BUILTIN name json                                         (DEFAULT_LAYOUTS, parsed by serde_json)
 use crate::key_codes::KeyCode;
 use num_traits::FromPrimitive;
 
@@ -28,6 +29,16 @@ pub fn main(_args: &[String]) -> i32 {
     rows.sort();
     for (name, ks) in rows {
       out.push_str(&format!("ROW {} {}\n", name, ks.iter().map(|k| k.to_string()).collect::<Vec<_>>().join(" ")));
+    }
+    // the built-in layouts as serde_json reads them (canonical text: objects sorted by key)
+    let mut names: Vec<&String> = crate::default_fancy_layouts::DEFAULT_LAYOUTS.keys().collect();
+    names.sort();
+    for n in names {
+      let text = crate::default_fancy_layouts::DEFAULT_LAYOUTS.get(n).unwrap();
+      match serde_json::from_str::<serde_json::Value>(text) {
+        Ok(v) => out.push_str(&format!("BUILTIN {} {}\n", n, serde_json::to_string(&v).unwrap())),
+        Err(_) => out.push_str(&format!("BUILTIN-UNPARSABLE {}\n", n)),
+      }
     }
     out
   });
